@@ -88,6 +88,14 @@ def work(chunk, extra):
             im = alpha_obs(s_, xs)
             if im != mm:
                 dis.append({'op': 'get_alphabet_from_selfies', 'input': xs, 'impl': im, 'model': mm})
+            # "the given strings": whatever kind of iterable hands them over (list, tuple, one-shot iterators, dict keys)
+            for kname, mk in (('tuple', tuple), ('generator', lambda v: (x for x in v)), ('iter(list)', lambda v: iter(list(v))),
+                              ('map', lambda v: map(str, v)), ('dict keys', lambda v: dict.fromkeys(v).keys()), ('reversed', lambda v: reversed(list(v)))):
+                other = alpha_obs(s_, mk(xs))
+                if other != im:
+                    fail.append({'clause': 'get_alphabet_from_selfies returns the same set whatever iterable hands over the strings (%s vs list)' % kname,
+                                 'input': {'strings': xs, 'iterable': kname}, 'impl': other, 'expected': im})
+                    break
             ps = [d.one(['wf_parse', S(x)]) for x in xs]
             if all(p is not None for p in ps):
                 want = sorted(set('[' + U(b) + ']' for p in ps for b, _ in p))
